@@ -9,7 +9,7 @@ from vf.refderive import selftest as _r2_selftest
 ID = "C16"
 LEVEL = "exploration"
 RULE = ("function level: every n < 16^3 and every symbol triple over {16 index symbols, [F], [Xx], [nop], "
-        "[epsilon], missing} (both finite sets enumerated completely, split over the shards), sampled n < 16^6; "
+        "[epsilon], missing} (both finite sets enumerated completely, split over the shards), sampled n up to 16^4 + 70 000; "
         "API level: decoder on [C]*k+[RingL]+digits and [S][BranchL]+digits+atoms+[O], decoder with non-index/"
         "missing digit symbols, encoder on rings of span n+2 and branches of length n+1; expected digits come "
         "from own positional arithmetic over the table of docs/source/derivation.rst. "
@@ -198,7 +198,7 @@ def shard(ctx):
     def gen(ch):
         w = ch.int(0, 5)
         if w == 0:
-            return dict(kind="fn_n", n=ch.int(4096, 16 ** 6))
+            return dict(kind="fn_n", n=ch.int(4096, 16 ** 4 + 70000))
         if w == 1:
             L = ch.int(1, 3)
             m = ch.int(0, L)
